@@ -719,7 +719,10 @@ def main():
         c.floor('c3_parts', 400000)
         c.floor('c5_validate_comp', 5000)
         c.floor('c5_validate_noncomp', 5000)
-    c.floor('c1_roundtrip', c.floors['evaluations'])
+    c.floor('c1_plain', c.floors['evaluations'])
+    c.floor('c1_stage_qualified_variable', 1000 if c.tier == 'quick' else 15000)
+    c.floor('c6_variable_parts_agree', 2500 if c.tier == 'quick' else 40000)
+    c.floor('c4_validate_references', 60000 if c.tier == 'quick' else 900000)
     c.floor('c2_idempotent', c.floors['evaluations'])
     sys.exit(c.finish())
 
